@@ -168,8 +168,8 @@ theorem zero_charge_feasible_no_seaweed (i : Inp K) (noSeaweed : i.addSeaweed = 
     unfold MeatSpec meatUse
     simp only [ea_sfStart, ea_sfEnd, ea_sfHumans, ea_sfFeed, ea_sfBiofuel, ea_scpHumans, ea_scpFeed, ea_scpBiofuel, ea_csHumans, ea_csFeed, ea_csBiofuel, ea_meatStart, ea_meatEnd, ea_meatEaten, ea_cropStorage, ea_cropConsumed, ea_cropHumans, ea_cropFeed, ea_cropBiofuel, ea_swWet, ea_swHumans, ea_swFeed, ea_swBiofuel, ea_usedArea, grossUp_zero, sub_zero]
     split_ifs
-    · exact ⟨trivial, trivial, hmc m⟩
-    · exact ⟨trivial, trivial, hmc m⟩
+    · exact ⟨trivial, trivial, by rw [sub_self]; exact hmc m⟩
+    · exact ⟨trivial, trivial, by rw [sub_self]; exact hmc m⟩
     · exact hsl m
   · intro hon m hm
     unfold scpUse
